@@ -678,7 +678,7 @@ func exportTables(repo string) (string, error) {
 
 	// ---- Swagger 2
 	var p2, find2, comp2 []string
-	typesLoop, attrsLoop := "LoopUnknown", "LoopUnknown"
+	typesLoop, attrsLoop, membersFresh := "LoopUnknown", "LoopUnknown", "false"
 	if te, err := parseGo(repo, "pkg/exporter/type_exporter.go"); err != nil {
 		x.unk("type_exporter.go: %v", err)
 	} else {
@@ -829,6 +829,22 @@ func exportTables(repo string) (string, error) {
 					return ok && isIdent(ix.X, "swaggerTypes")
 				})
 			}
+			// memberTypes must be (re)initialised inside the loop over the types
+			ast.Inspect(fd.Body, func(n ast.Node) bool {
+				r, ok := n.(*ast.RangeStmt)
+				if !ok {
+					return true
+				}
+				ast.Inspect(r.Body, func(m ast.Node) bool {
+					if as, ok := m.(*ast.AssignStmt); ok && as.Tok == token.DEFINE && len(as.Lhs) == 1 && isIdent(as.Lhs[0], "memberTypes") {
+						if _, isLit := as.Rhs[0].(*ast.CompositeLit); isLit {
+							membersFresh = "true"
+						}
+					}
+					return true
+				})
+				return true
+			})
 			typesLoop = classifyLoop(fd, []string{"syslTypes"}, stores)
 			attrsLoop = classifyLoop(fd, []string{"memberTypes"}, func(b *ast.BlockStmt) bool {
 				return containsNode(b, func(n ast.Node) bool {
@@ -842,8 +858,8 @@ func exportTables(repo string) (string, error) {
 			})
 		}
 	}
-	fmt.Fprintf(&b, "Definition tables2_of_source : tables2 := {|\n  t2_prims := [%s];\n  t2_find := [%s];\n  t2_composite := [%s];\n  t2_types_loop := %s;\n  t2_attrs_loop := %s\n|}.\n\n",
-		strings.Join(p2, ";\n    "), strings.Join(find2, ";\n    "), strings.Join(comp2, "; "), typesLoop, attrsLoop)
+	fmt.Fprintf(&b, "Definition tables2_of_source : tables2 := {|\n  t2_prims := [%s];\n  t2_find := [%s];\n  t2_composite := [%s];\n  t2_types_loop := %s;\n  t2_attrs_loop := %s;\n  t2_members_fresh := %s\n|}.\n\n",
+		strings.Join(p2, ";\n    "), strings.Join(find2, ";\n    "), strings.Join(comp2, "; "), typesLoop, attrsLoop, membersFresh)
 
 	var us []string
 	for _, u := range x.unknown {
